@@ -8,3 +8,5 @@ const verifOn = false
 
 // verifExactTriSign is the counter-factual switch of the triSign finding.
 const verifExactTriSign = false
+
+func verifSimplifyRemoved(int) {}
